@@ -1,17 +1,28 @@
-"""C20 translator: evaluates the words-per-line tables of pagexml.analysis.text_stats (computed at
-import time with np.log) and writes them as data to PagexmlModel/Generated/C20.lean (DESIGN §4.1:
-the one place where the translator imports the module)."""
+"""C20 translator -> PagexmlModel/Generated/C20.lean.
+
+Two parts:
+  * the words-per-line tables of pagexml.analysis.text_stats, computed at import time with np.log: the one
+    place where the translator imports the module and evaluates it (DESIGN §4.1);
+  * the defaults and literals of stats.py / text_stats.py / layout_stats.py the model depends on, read with
+    `ast` (harness/translate.py) from the current working tree — never imported, never guessed: a shape that
+    is not recognised raises TranslateError.
+"""
 from __future__ import annotations
+
+from typing import Any, Dict
+
+ST = 'pagexml/analysis/stats.py'
+TS = 'pagexml/analysis/text_stats.py'
+LS = 'pagexml/analysis/layout_stats.py'
 
 
 def lean_str(s: str) -> str:
     return '"' + s.replace('\\', '\\\\').replace('"', '\\"') + '"'
 
 
-def generate() -> str:
+def wpl_tables() -> str:
     import pagexml.analysis.text_stats as ts
     keys = list(ts.wpl_cat_range.keys())          # dict order = order of first use
-    labels = [ts.wpl_cat_range[k] for k in keys]
     cats = []
     for k in keys:
         cats.append((ts.wpl_cat_range[k], int(ts.wpl_cat_min[k]), int(ts.wpl_cat_max[k])))
@@ -21,11 +32,6 @@ def generate() -> str:
     to_cat = [keys.index(ts.wpl_to_cat[w]) for w in wpls]
     overflow = keys.index(max(ts.wpl_cat_range.keys()))
     lines = [
-        '/- GENERATED by harness/props/c20_translate.py from pagexml/analysis/text_stats.py',
-        '   (module constants wpl_to_cat / wpl_cat_min / wpl_cat_max / wpl_cat_range, evaluated at run',
-        '   time because they are computed with np.log).  Do not edit: rewritten on every run. -/',
-        'namespace Pagexml.Generated.C20',
-        '',
         '/-- `wpl_cat_range` in dict order: (range label, `wpl_cat_min`, `wpl_cat_max`) -/',
         'def wplCats : List (String × Nat × Nat) := [',
         ',\n'.join(f'  ({lean_str(s)}, {lo}, {hi})' for s, lo, hi in cats),
@@ -37,10 +43,156 @@ def generate() -> str:
         '/-- index of `wpl_cat_range[max(wpl_cat_range.keys())]` (lines with more words than the table covers) -/',
         f'def wplOverflow : Nat := {overflow}',
         '',
-        'end Pagexml.Generated.C20',
-        '',
     ]
     return '\n'.join(lines)
+
+
+def constants() -> Dict[str, Any]:
+    """the defaults and literals, as plain Python values (also used by the harness, e.g. `_SMALL`)"""
+    from harness import translate as tr
+    E = tr.TranslateError
+
+    def nat(v, what):
+        i = tr.as_int(v)
+        if i < 0:
+            raise E(f'{what} is negative: {i}')
+        return i
+
+    def named(fn, callee, param, pos, var):
+        a = tr.call_argument(ST, fn, callee, param, pos)
+        if a != ('NAME', var):
+            raise E(f'{ST}:{fn}: {callee}(… {param}) is {a!r}, expected the variable {var}')
+
+    c: Dict[str, Any] = {}
+    # --- get_doc_stats: its defaults, and what it hands to the two functions that bin word lengths ---------
+    d = tr.func_defaults(ST, 'get_doc_stats')
+    for k in ('line_width_boundary_points', 'max_word_length', 'line_bin_width', 'max_bin'):
+        if k not in d:
+            raise E(f'{ST}:get_doc_stats has no default for {k}')
+    if d['line_width_boundary_points'] is not None:
+        raise E(f'{ST}:get_doc_stats: line_width_boundary_points defaults to {d["line_width_boundary_points"]!r}, not None')
+    c['defaultMaxWordLength'] = nat(d['max_word_length'], 'default max_word_length of get_doc_stats')
+    c['defaultLineBinWidth'] = tr.as_int(d['line_bin_width'])
+    c['defaultMaxBin'] = tr.as_int(d['max_bin'])
+    # the default boundary points: `if line_width_boundary_points is None: … = [point for point in range(…)]`
+    tr.literals_in(ST, 'get_doc_stats', '[point for point in range(line_bin_width, max_bin, line_bin_width)]')
+    tr.literals_in(ST, 'get_doc_stats', 'line_width_boundary_points is None', count=2)
+    if tr.import_alias(ST, 'text_stats') != 'pagexml.analysis.text_stats':
+        raise E(f'{ST}: text_stats is not pagexml.analysis.text_stats')
+    if tr.import_alias(ST, 'layout_stats') != 'pagexml.analysis.layout_stats':
+        raise E(f'{ST}: layout_stats is not pagexml.analysis.layout_stats')
+    named('get_doc_stats', '_init_doc_stats', 'line_width_boundary_points', 0, 'line_width_boundary_points')
+    named('get_doc_stats', '_init_doc_stats', 'max_word_length', 2, 'max_word_length')
+    named('get_doc_stats', 'get_word_cat_stats', 'max_word_length', 2, 'max_word_length')
+    c['initBinSize'] = nat(tr.effective_argument(ST, 'get_doc_stats', '_init_doc_stats', 'word_length_bin_size', 1, ST),
+                           'word_length_bin_size reaching _init_doc_stats')
+    c['wordCatBinSize'] = nat(tr.effective_argument(ST, 'get_doc_stats', 'get_word_cat_stats', 'word_length_bin_size',
+                                                    3, TS), 'word_length_bin_size reaching get_word_cat_stats')
+    # --- get_word_cat_stats called directly ---------------------------------------------------------------
+    w = tr.func_defaults(TS, 'get_word_cat_stats')
+    for k in ('max_word_length', 'word_length_bin_size'):
+        if k not in w:
+            raise E(f'{TS}:get_word_cat_stats has no default for {k}')
+    c['wordCatDefaultMaxLen'] = nat(w['max_word_length'], 'default max_word_length of get_word_cat_stats')
+    c['wordCatDefaultBinSize'] = nat(w['word_length_bin_size'], 'default word_length_bin_size of get_word_cat_stats')
+    # --- the loop bounds of the two binning loops ------------------------------------------------------------
+    c['initBinStopPlus'] = nat(tr.literal_in(
+        ST, '_init_doc_stats', 'range(word_length_bin_size, max_word_length + _N0, word_length_bin_size)'),
+        'stop offset of the bin range of _init_doc_stats')
+    m = tr.literals_in(TS, 'get_word_cat_stats', 'range(_N0, max_word_length + _N1)')[0]
+    c['wordLoop'] = (nat(m['_N0'], 'start of the length loop'), nat(m['_N1'], 'stop offset of the length loop'))
+    # --- the fixed columns ------------------------------------------------------------------------------------
+    c['defaultElements'] = tr.str_list_value(tr.module_constant(ST, 'DEFAULT_ELEMENTS'), f'{ST}: DEFAULT_ELEMENTS')
+    c['initFields'] = tr.assigned_str_list(ST, '_init_doc_stats', 'fields')
+    c['wordCatKeys'] = tr.assigned_dict_str_keys(TS, 'get_word_cat_stats', 'word_cat_stats')
+    # --- line widths: where the first range starts ------------------------------------------------------------
+    for key, fn in (('catWidthStart', 'categorise_line_width'), ('rangesWidthStart', 'get_boundary_width_ranges')):
+        vs = tr.assigned_literals(LS, fn, 'prev_point')
+        if len(vs) != 1:
+            raise E(f'{LS}:{fn}: expected one `prev_point = <number>`, found {vs}')
+        c[key] = tr.as_int(vs[0])
+    # --- keyness: the regularisation constant and the factor of the score --------------------------------------
+    small = tr.module_constant(TS, '_SMALL')
+    f = tr.as_fraction(small)
+    if f < 0:
+        raise E(f'{TS}: _SMALL is negative')
+    c['small'] = (f.numerator, f.denominator)
+    c['smallFloat'] = float(small)
+    tr.literals_in(TS, 'compute_log_likelihood',
+                   'observed[i, j] * np.log((observed[i, j] + _SMALL) / (expected[i, j] + _SMALL))')
+    c['scoreFactor'] = nat(tr.literal_in(TS, 'compute_log_likelihood', '_N0 * sum_likelihood'), 'factor of the score')
+    return c
+
+
+def generate() -> str:
+    from harness import translate as tr
+    c = constants()
+    head = (
+        '/- GENERATED on every run by harness/props/c20_translate.py from the current /repo working tree.\n'
+        '   Do not edit: the property theorems are re-checked against what the code says NOW.\n'
+        '   (1) pagexml/analysis/text_stats.py: module constants wpl_to_cat / wpl_cat_min / wpl_cat_max / wpl_cat_range,\n'
+        '       evaluated at run time because they are computed with np.log;\n'
+        '   (2) read with `ast`: pagexml/analysis/stats.py (defaults of get_doc_stats, the arguments with which it reaches\n'
+        '       _init_doc_stats and text_stats.get_word_cat_stats, DEFAULT_ELEMENTS, `fields` and the bin range of\n'
+        '       _init_doc_stats), pagexml/analysis/text_stats.py (defaults, dict keys and length loop of get_word_cat_stats, _SMALL and\n'
+        '       the factor of the score in compute_log_likelihood), pagexml/analysis/layout_stats.py (`prev_point = N` of\n'
+        '       categorise_line_width / get_boundary_width_ranges). -/\n'
+        'namespace Pagexml.Generated.C20\n\n')
+    body = wpl_tables() + '\n' + '\n'.join([
+        '/-- default `max_word_length` of get_doc_stats -/',
+        f'def defaultMaxWordLength : Nat := {c["defaultMaxWordLength"]}',
+        '',
+        '/-- default `line_bin_width` of get_doc_stats (`range(line_bin_width, max_bin, line_bin_width)` are the boundary',
+        '    points when none are passed) -/',
+        f'def defaultLineBinWidth : Int := {tr.lean_int(c["defaultLineBinWidth"])}',
+        '',
+        '/-- default `max_bin` of get_doc_stats -/',
+        f'def defaultMaxBin : Int := {tr.lean_int(c["defaultMaxBin"])}',
+        '',
+        '/-- `word_length_bin_size` with which get_doc_stats reaches _init_doc_stats (the literal passed, else the default) -/',
+        f'def initBinSize : Nat := {c["initBinSize"]}',
+        '',
+        '/-- `word_length_bin_size` with which get_doc_stats reaches text_stats.get_word_cat_stats -/',
+        f'def wordCatBinSize : Nat := {c["wordCatBinSize"]}',
+        '',
+        '/-- default `max_word_length` of get_word_cat_stats (called directly) -/',
+        f'def wordCatDefaultMaxLen : Nat := {c["wordCatDefaultMaxLen"]}',
+        '',
+        '/-- default `word_length_bin_size` of get_word_cat_stats (called directly) -/',
+        f'def wordCatDefaultBinSize : Nat := {c["wordCatDefaultBinSize"]}',
+        '',
+        '/-- `N` of `range(word_length_bin_size, max_word_length + N, word_length_bin_size)` in _init_doc_stats -/',
+        f'def initBinStopPlus : Nat := {c["initBinStopPlus"]}',
+        '',
+        '/-- `(A, B)` of `for wl in range(A, max_word_length + B)` in get_word_cat_stats -/',
+        f'def wordLoop : Nat × Nat := ({c["wordLoop"][0]}, {c["wordLoop"][1]})',
+        '',
+        '/-- `DEFAULT_ELEMENTS` of stats.py -/',
+        f'def defaultElements : List String := {tr.lean_str_list(c["defaultElements"])}',
+        '',
+        '/-- `fields` of _init_doc_stats (the columns that do not depend on the configuration) -/',
+        f'def initFields : List String := {tr.lean_str_list(c["initFields"])}',
+        '',
+        '/-- the keys of the dict display `word_cat_stats = {…}` of get_word_cat_stats (get_doc_stats appends each to the',
+        '    column of that name) -/',
+        f'def wordCatKeys : List String := {tr.lean_str_list(c["wordCatKeys"])}',
+        '',
+        '/-- `prev_point = N` at the start of categorise_line_width -/',
+        f'def catWidthStart : Int := {tr.lean_int(c["catWidthStart"])}',
+        '',
+        '/-- `prev_point = N` at the start of get_boundary_width_ranges -/',
+        f'def rangesWidthStart : Int := {tr.lean_int(c["rangesWidthStart"])}',
+        '',
+        '/-- `_SMALL` of text_stats.py as the exact ratio (numerator, denominator) its decimal literal denotes -/',
+        f'def small : Nat × Nat := ({c["small"][0]}, {c["small"][1]})',
+        '',
+        '/-- `N` of `return N * sum_likelihood, …` in compute_log_likelihood -/',
+        f'def scoreFactor : Nat := {c["scoreFactor"]}',
+        '',
+        'end Pagexml.Generated.C20',
+        '',
+    ])
+    return head + body
 
 
 if __name__ == '__main__':
